@@ -20,6 +20,7 @@ PROPS = {
              "params": {"quick": {"depth": 1, "width": 1, "strlen": 1, "maxargc": 3}, "thorough": {"depth": 1, "width": 2, "strlen": 1, "maxargc": 3}},
              "wall": {"thorough": "40m"}},
             {"pkg": "./c13", "harness": "Harness_seeded", "setup": "SetupSeeds", "params": {"quick": {}, "thorough": {}}},
+            {"pkg": "./c13", "harness": "Harness_twomaps", "setup": "SetupSeeds", "params": {"quick": {}, "thorough": {}}},
             {"pkg": "./c13", "harness": "Harness_compose", "setup": "SetupSeeds",
              "params": {"quick": {"depth": 0, "width": 1}, "thorough": {"depth": 1, "width": 1}}, "wall": {"thorough": "40m"}},
         ],
@@ -195,6 +196,8 @@ PROPS = {
             {"pkg": "./c11", "harness": "Harness_pair", "setup": "Setup", "race": True, "native_timeout": 120, "threads": 6,
              "preemptions": {"quick": 1, "thorough": 1},
              "params": {"quick": {"templates": 5}, "thorough": {"templates": 10}}, "wall": {"thorough": "40m"}},
+            {"pkg": "./c11", "harness": "Harness_gensym", "setup": "SetupGensym", "race": True, "native_timeout": 120, "threads": 6,
+             "preemptions": {"quick": 2, "thorough": 3}, "params": {"quick": {}, "thorough": {}}, "wall": {"quick": "150s", "thorough": "40m"}},
         ],
     },
     "C07": {
